@@ -275,6 +275,8 @@ pub struct RunCfg {
     pub seed: u64,
     pub crumb_dir: Option<std::path::PathBuf>,
     pub strict: bool,
+    /// Write breadcrumbs for every sub-check (second attempt after an unexplained process death).
+    pub force_crumbs: bool,
 }
 
 pub trait SubRunner: Send + Sync {
@@ -327,7 +329,7 @@ fn eval_case<C: Debug + Hash + Serialize>(
     stats: &mut Stats,
     counting: bool,
 ) -> Result<(), Violation> {
-    if sub.may_abort {
+    if sub.may_abort || cfg.force_crumbs {
         if let Some(dir) = &cfg.crumb_dir {
             if let Ok(v) = serde_json::to_value(case) {
                 write_breadcrumb(dir, cfg.property, sub.name, &v);
